@@ -268,7 +268,9 @@ def fields(draw, versions: list[int], flex: set[int], top: int, depth: int, stru
         elif draw(st.integers(0, 4)) == 0:
             f["ignorable"] = True
         if draw(st.booleans()):
-            f["about"] = f"The {f['name']} field."
+            f["about"] = draw(st.sampled_from([f"The {f['name']} field.", f"The {f['name']} field.", "Numerator // denominator, rounded down.",
+                                               "See https://kafka.apache.org/protocol // section 5.", 'A "quoted" word, a \\ backslash and a trailing //',
+                                               "100% of {braces} and %s", "Line one.\nLine two."]))
         # field-level keys without meaning for the models
         if f["type"] == "bytes" and draw(st.integers(0, 2)) == 0:
             f["zeroCopy"] = True
